@@ -35,6 +35,7 @@ from mujoco_warp._src.types import DisableBit
 from mujoco_warp._src.types import EnableBit
 from mujoco_warp._src.types import GeomType
 from mujoco_warp._src.types import Model
+from mujoco_warp._src.types import OverflowType
 from mujoco_warp._src.types import SleepState
 from mujoco_warp._src.types import mat23
 from mujoco_warp._src.types import mat63
@@ -881,6 +882,19 @@ def _narrowphase(m: Model, d: Data, ctx: CollisionContext):
     sdf_narrowphase(m, d, ctx)
 
 
+@wp.kernel
+def _broadphase_overflow(
+  # Data in:
+  naconmax_in: int,
+  ncollision_in: wp.array[int],
+  # Data out:
+  overflow_out: wp.array[int],
+):
+  worldid = wp.tid()
+  if ncollision_in[0] > naconmax_in:
+    overflow_out[worldid] = overflow_out[worldid] | OverflowType.BROADPHASE
+
+
 @event_scope
 def collision(
   m: Model,
@@ -921,6 +935,10 @@ def collision(
   # its launch wholesale via a graph conditional when nothing woke; pre-zeroing ncollision here
   # keeps the narrowphase below a no-op in that case. SAP cannot use a conditional (its sort/scan
   # allocate internally), so it relies on the per-pair incremental filter instead.
+  if incremental:
+    # the full pass's pair count is about to be reset: record its overflow first (the end-of-step check
+    # only sees the counter of the last pass)
+    wp.launch(_broadphase_overflow, dim=d.nworld, inputs=[d.naconmax, d.ncollision], outputs=[d.overflow])
   d.ncollision.zero_()
   if not incremental:
     d.nacon.zero_()
